@@ -11,6 +11,11 @@ shift $((OPTIND - 1))
 miss=0
 for id in "$@"; do
 	p=$(python3 -c 'import json,sys; print(json.load(open(sys.argv[1]))["breaks_property"])' "$ROOT/seeded/$id/meta.json")
+	need=$(python3 -c 'import json,sys; print(json.load(open(sys.argv[1])).get("caught_from_tier","quick"))' "$ROOT/seeded/$id/meta.json")
+	if [ "$need" = thorough ] && [ "$tier" != thorough ]; then
+		echo "$id $p SKIPPED  (caught from the thorough tier only; see meta.json)"
+		continue
+	fi
 	out=$("$ROOT/selftest/run_seeded.sh" -t "$tier" -p "$p" "$ROOT/seeded/$id" 2>&1)
 	line=$(echo "$out" | grep "^  $p ")
 	if echo "$line" | grep -q "exit=1 .*replay=ok"; then
